@@ -224,6 +224,14 @@ type hrWorld struct {
 	lHotSince      time.Time
 	mHotSince      time.Time
 	prevX          *hrExpect
+	curX           *hrExpect
+	lateAck        int32
+	oldClosed      bool
+	monViol        [][2]string
+	monKnown       []string
+	monMaxHot      time.Duration
+	monStop        chan struct{}
+	monWg          sync.WaitGroup
 	raw            bool
 }
 
@@ -730,6 +738,91 @@ func (w *hrWorld) startTraffic() {
 	}()
 }
 
+// ---------------------------------------------------------------- monitor: oracles that do not depend on the model
+
+// polls the listener and the manager every few ms: (a) the moment the listener reports the hot restart done, every live
+// session it had to notify must have acknowledged; (b) the ack counter is never negative; (c) nobody stays in the
+// hot-restart state longer than the bound
+func (w *hrWorld) startMonitor(known []string) {
+	w.monStop = make(chan struct{})
+	w.monWg.Add(1)
+	go func() {
+		defer w.monWg.Done()
+		lastL := defaultState
+		var lSince, mSince time.Time
+		seen := map[string]bool{}
+		note := func(kind, detail string) {
+			if seen[kind] {
+				return
+			}
+			seen[kind] = true
+			w.mu.Lock()
+			if atomic.LoadInt32(&w.lateAck) == 1 && hrHas(known, "late-ack") && (kind == "ack-count-negative" || kind == "done-without-acks") {
+				w.monKnown = append(w.monKnown, "late-ack: "+detail)
+			} else {
+				w.monViol = append(w.monViol, [2]string{kind, detail})
+			}
+			w.mu.Unlock()
+		}
+		for {
+			select {
+			case <-w.monStop:
+				return
+			default:
+			}
+			l := w.oldL
+			l.mu.Lock()
+			st, cnt, ep := l.state, l.hotRestartAckCount, l.epoch
+			l.mu.Unlock()
+			if st == hotRestartDoneState && lastL == hotRestartState {
+				w.mu.Lock()
+				var missing []int
+				for sv, e := range w.notified {
+					if !sv.IsClosed() && e == ep {
+						missing = append(missing, w.idSrv[sv])
+					}
+				}
+				w.mu.Unlock()
+				if len(missing) > 0 {
+					sort.Ints(missing)
+					note("done-without-acks", fmt.Sprintf("the listener reports the hot restart of epoch %d done while live sessions %v it had to notify have not acknowledged", ep, missing))
+				}
+			}
+			if cnt < 0 {
+				note("ack-count-negative", fmt.Sprintf("hotRestartAckCount is %d (listener state %s, epoch %d)", cnt, hrStateName[st], ep))
+			}
+			if st == hotRestartState {
+				if lSince.IsZero() {
+					lSince = time.Now()
+				} else if d := time.Since(lSince); d > hrLeaveLimit {
+					note("listener-stuck", fmt.Sprintf("the listener has been in the hot-restart state for %v (bound in the code: 2 s)", d.Round(time.Millisecond)))
+				}
+			} else if !lSince.IsZero() {
+				if d := time.Since(lSince); d > w.monMaxHot {
+					w.monMaxHot = d
+				}
+				lSince = time.Time{}
+			}
+			lastL = st
+			if w.sm != nil {
+				if w.mstate() == hotRestartState {
+					if mSince.IsZero() {
+						mSince = time.Now()
+					} else if d := time.Since(mSince); d > hrLeaveLimit {
+						note("manager-stuck", fmt.Sprintf("the session manager has been in the hot-restart state for %v (bound in the code: 2 s)", d.Round(time.Millisecond)))
+					}
+				} else if !mSince.IsZero() {
+					if d := time.Since(mSince); d > w.monMaxHot {
+						w.monMaxHot = d
+					}
+					mSince = time.Time{}
+				}
+			}
+			time.Sleep(4 * time.Millisecond)
+		}
+	}()
+}
+
 // ---------------------------------------------------------------- scenario execution
 
 type hrOutcome struct {
@@ -907,15 +1000,16 @@ func hrHas(list []string, s string) bool {
 // a timer of the code may already have fired although the behaviour has it still running: the machine was too slow to
 // realise this behaviour; what is observed then says nothing about the property (the run is repeated)
 func (w *hrWorld) slipNow() bool {
-	x := w.prevX
-	if x == nil {
-		return false
-	}
-	if x.LState == "hot" && !w.lHotSince.IsZero() && time.Since(w.lHotSince) > 1400*time.Millisecond {
-		return true
-	}
-	if x.MState == "hot" && !w.mHotSince.IsZero() && time.Since(w.mHotSince) > 1400*time.Millisecond {
-		return true
+	for _, x := range []*hrExpect{w.prevX, w.curX} {
+		if x == nil {
+			continue
+		}
+		if x.LState == "hot" && !w.lHotSince.IsZero() && time.Since(w.lHotSince) > 1400*time.Millisecond {
+			return true
+		}
+		if x.MState == "hot" && !w.mHotSince.IsZero() && time.Since(w.mHotSince) > 1400*time.Millisecond {
+			return true
+		}
 	}
 	return false
 }
@@ -1046,7 +1140,7 @@ func hrRunScenario(sc *hrScenario, job *hrJob) (out hrOutcome) {
 		out.traffic = atomic.LoadInt64(&w.traffic)
 		out.trafMust = atomic.LoadInt64(&w.trafficMust)
 		out.sessions = w.sessCount()
-		out.maxLeave, out.maxHeal, out.maxErr = w.maxLeave, w.maxHeal, w.maxErr
+		out.maxLeave, out.maxHeal, out.maxErr = w.monMaxHot, w.maxHeal, w.maxErr
 		w.destroy()
 	}()
 	defer func() {
@@ -1055,6 +1149,11 @@ func hrRunScenario(sc *hrScenario, job *hrJob) (out hrOutcome) {
 		}
 	}()
 	w.startTraffic()
+	w.startMonitor(job.Known)
+	defer func() {
+		close(w.monStop)
+		w.monWg.Wait()
+	}()
 	initX := sc.Init
 	if initX == nil {
 		initX = &hrExpect{Sess: make([]hrSessX, sc.NP)}
@@ -1071,12 +1170,20 @@ func hrRunScenario(sc *hrScenario, job *hrJob) (out hrOutcome) {
 		}
 	}
 	lateAckClass := false
+	oracleOnly := false // the code has left the predicted states: the rest of the behaviour is used as a schedule only
+	runSteps := func() {
 	for si := range sc.Steps {
 		st := sc.Steps[si]
 		x := st.X
+		if oracleOnly {
+			x = nil
+		}
+		rawMode := sc.Raw || oracleOnly
 		out.steps++
-		if !sc.Raw {
+		w.prevX, w.curX = nil, nil
+		if !rawMode {
 			w.prevX = prev
+			w.curX = x
 		}
 		switch st.A {
 		case "NewServerStarts":
@@ -1088,6 +1195,7 @@ func hrRunScenario(sc *hrScenario, job *hrJob) (out hrOutcome) {
 			w.newL, w.newLn = l, cl
 		case "OldServerExits":
 			w.killBegin()
+			w.oldClosed = true
 			w.oldL.Close()
 			for id, c := range w.cli {
 				if w.srvOf(id) == "old" {
@@ -1107,8 +1215,22 @@ func hrRunScenario(sc *hrScenario, job *hrJob) (out hrOutcome) {
 			w.killEnd()
 		case "LHotRestart":
 			w.gapTimer()
+			// every open session of the old server that is in the default state has to be told (C16: moves EVERY session)
+			var must []*Session
+			w.oldL.mu.Lock()
+			w.oldL.sessions.sessionMu.Lock()
+			for s := range w.oldL.sessions.data {
+				if s.state == defaultState && !s.IsClosed() {
+					must = append(must, s)
+				}
+			}
+			w.oldL.sessions.sessionMu.Unlock()
+			w.oldL.mu.Unlock()
 			w.mu.Lock()
 			w.notified = map[*Session]uint64{}
+			for _, s := range must {
+				w.notified[s] = uint64(st.E)
+			}
 			w.mu.Unlock()
 			err := w.oldL.HotRestart(uint64(st.E))
 			w.lastTimerStart = time.Now()
@@ -1132,9 +1254,6 @@ func hrRunScenario(sc *hrScenario, job *hrJob) (out hrOutcome) {
 							w.viol(sc, &out, "not-notified", fmt.Sprintf("HotRestart(%d): live session %d of the old server (default state) was not sent the restart event within %v", st.E, i+1, hrWaitLimit))
 							return
 						}
-						w.mu.Lock()
-						w.notified[w.srv[i+1]] = uint64(st.E)
-						w.mu.Unlock()
 					}
 				}
 			}
@@ -1229,6 +1348,7 @@ func hrRunScenario(sc *hrScenario, job *hrJob) (out hrOutcome) {
 				// classifier of the finding "late-ack": an acknowledgement of the listener's current epoch is handled while
 				// the listener is not in the hot-restart state
 				lateAckClass = true
+				atomic.StoreInt32(&w.lateAck, 1)
 				if hrHas(job.Known, "late-ack") && !sc.Raw {
 					out.known = append(out.known, "late-ack")
 					return
@@ -1379,13 +1499,18 @@ func hrRunScenario(sc *hrScenario, job *hrJob) (out hrOutcome) {
 			drifted(si, "unknown action")
 			return
 		}
-		if sc.Raw {
+		if rawMode {
 			w.registerAny()
 			continue
 		}
 		if msg := w.registerNew(prev, x, &out); msg != "" {
 			drifted(si, msg)
-			return
+			if out.slip {
+				return
+			}
+			oracleOnly = true
+			w.registerAny()
+			continue
 		}
 		// compare at settled points: the next step is one the harness drives (or the behaviour ends)
 		if x != nil && x.Quiet {
@@ -1397,7 +1522,11 @@ func hrRunScenario(sc *hrScenario, job *hrJob) (out hrOutcome) {
 			out.compares++
 			if !ok {
 				drifted(si, d)
-				return
+				if out.slip {
+					return
+				}
+				oracleOnly = true
+				continue
 			}
 			dead := int32(0)
 			for p := 0; p < w.np; p++ {
@@ -1422,11 +1551,25 @@ func hrRunScenario(sc *hrScenario, job *hrJob) (out hrOutcome) {
 		}
 		prev = x
 	}
+	}
+	runSteps()
 	// ---- end of the behaviour
 	w.leaveOracle(sc, &out)
-	if sc.Observe > 0 {
+	if out.slip && len(out.violations) == 0 {
+		return
+	}
+	// C17: with a server reachable and the manager open every pool serves again after a few rebuild intervals
+	if w.closeDone == nil && (!w.oldClosed || w.newL != nil) {
 		hrObserveHeal(w, sc, job, &out)
-	} else if !sc.Raw && prev != nil && prev != initX && prev.Quiet {
+	}
+	w.mu.Lock()
+	for _, mv := range w.monViol {
+		out.violations = append(out.violations, hrViolation{Property: sc.Prop, Kind: mv[0], Scenario: sc.Name, Detail: mv[1],
+			NP: sc.NP, Observe: sc.Observe, Steps: hrStripSteps(sc.Steps)})
+	}
+	out.known = append(out.known, w.monKnown...)
+	w.mu.Unlock()
+	if !sc.Raw && !oracleOnly && out.drift == "" && prev != nil && prev != initX && prev.Quiet {
 		// nothing more may be created: wait a few rebuild intervals and count the sessions again (C17: not rebuilt twice,
 		// Close stops everything)
 		time.Sleep(3*rebuild + 30*time.Millisecond)
@@ -1453,7 +1596,14 @@ func hrRunScenario(sc *hrScenario, job *hrJob) (out hrOutcome) {
 func hrObserveHeal(w *hrWorld, sc *hrScenario, job *hrJob, out *hrOutcome) {
 	rebuild := time.Duration(job.RebuildMs) * time.Millisecond
 	t0 := time.Now()
-	limit := time.Duration(sc.Observe)*rebuild + 2*time.Second
+	nobs := sc.Observe
+	if nobs < 10 {
+		nobs = 10
+	}
+	limit := time.Duration(nobs)*rebuild + 8*time.Second
+	if sc.Observe > 0 {
+		limit = time.Duration(nobs)*rebuild + 2*time.Second
+	}
 	fails := make([]int, w.np)
 	healed := make([]bool, w.np)
 	tries := 0
@@ -1485,7 +1635,7 @@ func hrObserveHeal(w *hrWorld, sc *hrScenario, job *hrJob, out *hrOutcome) {
 	}
 	for p := 0; p < w.np; p++ {
 		if !healed[p] {
-			detail := fmt.Sprintf("pool %d: %d of %d round trips failed over %v (%d rebuild intervals of %v) with a server reachable; the pool's session is dead and is not replaced", p+1, fails[p], tries, time.Since(t0).Round(time.Millisecond), sc.Observe, rebuild)
+			detail := fmt.Sprintf("pool %d: %d of %d round trips failed over %v (more than %d rebuild intervals of %v) with a server reachable; the pool's session is dead and is not replaced", p+1, fails[p], tries, time.Since(t0).Round(time.Millisecond), nobs, rebuild)
 			stale := false
 			w.sm.RLock()
 			cur := w.sm.pools[p].Session()
